@@ -65,9 +65,15 @@ def one(seed, sdir, revs):
         res = {"base": base, "checks": {}}
         silent = True
         for c in checks:
-            added = sorted(set(patched[c]["keys"]) - set(clean[c]["keys"]))
+            # a report counts as the clean tree's own when the same rule reports the same site there, whichever function the
+            # patch moved the code into
+            rs = lambda k: tuple(k.split("/", 2)[1:])
+            clean_rs = set(rs(k) for k in clean[c]["keys"])
+            added = sorted(k for k in set(patched[c]["keys"]) - set(clean[c]["keys"]) if rs(k) not in clean_rs)
+            moved = sorted(k for k in set(patched[c]["keys"]) - set(clean[c]["keys"]) if rs(k) in clean_rs)
             broke = patched[c]["rc"] == 2 and clean[c]["rc"] != 2
-            res["checks"][c] = {"rc_clean": clean[c]["rc"], "rc_patched": patched[c]["rc"], "added": added}
+            res["checks"][c] = {"rc_clean": clean[c]["rc"], "rc_patched": patched[c]["rc"], "added": added, "moved_with_the_code": moved,
+                                "clean_reports": clean[c]["keys"]}
             if added or broke or patched[c]["rc"] not in (0, 1, 2):
                 silent = False
         res["silent"] = silent
